@@ -4,7 +4,7 @@
    law assumed of them: AES decryption inverts AES encryption on 16-byte blocks, which stay 16 bytes. *)
 From LV Require Import Base.Bytes Model.Obj Model.Crypto.Word Model.Crypto.RC4 Model.Crypto.PKCS5
   Model.Crypto.Handler Proofs.CryptoProofs Proofs.CryptoProofsFilter Proofs.CryptoProofsObject
-  Proofs.CryptoProofsDoc.
+  Proofs.CryptoProofsDoc Proofs.CryptoProofsExamples.
 
 (* lopdf's RC4: decrypting what was encrypted under the same key gives the message back, for every key
    the constructor accepts (1..256 bytes; any other length panics = None) and every message *)
@@ -106,6 +106,25 @@ Theorem C05_example_rc4 :
   rc4 (bs "Key") [xbb; xf3; x16; xe8; xd9; x40; xaf; x0a; xd3] = Some (bs "Plaintext").
 Proof. split; vm_compute; reflexivity. Qed.
 
+(* a four-object document (catalog string, content stream, hexadecimal string nested in an array, empty
+   string in a dictionary, Metadata stream) under V2/128-bit RC4 and under V4/AESV2 with EncryptMetadata
+   false, run through the model with the executable primitives: the user AND the owner password
+   authenticate, [decode] recovers key / filters / EncryptMetadata, objects and trailer come back, the
+   ciphertext differed; another password is rejected with IncorrectPassword and [DErr] (unchanged) *)
+Theorem C05_example_document :
+  max_id_ok ex_doc /\ dict_get (d_trailer ex_doc) K_Encrypt = None /\ has_objstm (d_objects ex_doc) = false /\
+  run_example ex_v2 ex_user = Some (true, true, true, true) /\
+  run_example ex_v2 ex_owner = Some (true, true, true, true) /\
+  run_example ex_v4 ex_user = Some (true, true, true, true) /\
+  run_example ex_v4 ex_owner = Some (true, true, true, true) /\
+  run_wrong ex_v2 (bs "guess") = Some (DErr D_IncorrectPassword) /\
+  run_wrong ex_v4 (bs "guess") = Some (DErr D_IncorrectPassword).
+Proof.
+  destruct ex_hyps as [H1 [H2 H3]].
+  exact (conj H1 (conj H2 (conj H3 (conj ex_v2_user (conj ex_v2_owner (conj ex_v4_user (conj ex_v4_owner
+        (conj ex_v2_wrong ex_v4_wrong)))))))).
+Qed.
+
 Theorem C05_example_pkcs5 :
   pkcs5_pad (bs "0123456789abcdef") = bs "0123456789abcdef" ++ repeat x10 16 /\
   pkcs5_pad (bs "abc") = bs "abc" ++ repeat x0d 13.
@@ -125,3 +144,4 @@ Print Assumptions C05_document_objects_exact.
 Print Assumptions C05_reject_leaves_unchanged.
 Print Assumptions C05_example_rc4.
 Print Assumptions C05_example_pkcs5.
+Print Assumptions C05_example_document.
